@@ -96,12 +96,15 @@ class Environment:
             Use the operators ``|`` ("any"), ``&`` ("all") or ``~`` ("not") to
             combine events, as in ``flag1 & flag2 | ~flag3``.
     """
-    __slots__ = '_initial_time', '_startup', '_loop', '_scope', 'active_process'
+    __slots__ = (
+        '_initial_time', '_startup', '_loop', '_scope', 'active_process', '_stop_time'
+    )
 
     def __init__(self, initial_time=0):
         self._initial_time = initial_time
         self._startup = []  # type: List[Tuple[Coroutine, float]]
         self._loop = None  # type: Optional[AbstractLoop]
+        self._stop_time = None  # type: Optional[float]
         self._scope = EnvironmentScope()
         #: The currently active process
         self.active_process = None  # type: Optional[Process]
@@ -119,7 +122,11 @@ class Environment:
         return self
 
     async def __aexit__(self, exc_type, exc_val, exc_tb):
-        return await self._scope.__aexit__(exc_type, exc_val, exc_tb)
+        try:
+            return await self._scope.__aexit__(exc_type, exc_val, exc_tb)
+        finally:
+            # the loop may move on without us, but our clock stops here
+            self._stop_time = self._loop.time
 
     async def until(self, until=None):
         """Asynchronous version of the :py:meth:`~.run` method"""
@@ -202,6 +209,8 @@ class Environment:
         """
         if self._loop is None:
             return self._initial_time
+        if self._stop_time is not None:
+            return self._stop_time
         return self._loop.time
 
     def schedule(self, event: 'Union[Event, Coroutine]', priority=1, delay=0):
